@@ -199,6 +199,9 @@ fn pool(args: &Args) {
         let t = if i % 3 == 0 { gen::line_soup(&mut rng, if i % 12 == 0 { 24 } else { 6 }) } else { gen::soup(&mut rng, if i % 8 == 0 { 48 } else { 12 }) };
         put(if i % 3 == 0 { "linesoup" } else { "soup" }, &t, &mut w);
     }
+    for _ in 0..args.num("multidoc", if thorough { 20_000 } else { 1_500 }) {
+        put("multidoc", &gen::multi_doc(&mut rng), &mut w);
+    }
     for (o, t) in gen::boundary_families(thorough) {
         put(&o, &t, &mut w);
     }
